@@ -27,6 +27,7 @@ type seenStanza struct {
 
 type reqOutcome struct {
 	returned  bool
+	sendDone  bool // the blocking call itself has returned (a response may still be open)
 	err       error
 	cancelled bool // its context was cancelled before it returned
 	got       seenStanza
@@ -74,8 +75,21 @@ func readMarker(r xml.TokenReader, how int) (n string, rerr string) {
 	return n, ""
 }
 
-func correlatedBody(kind string, nreq int, planSet []int) nd.Body {
+// idShapes: how the request names itself. 0: the caller supplies the id; 1: an
+// empty id attribute; 2: no id attribute (the library chooses the id in both).
+func correlatedBody(kind string, nreq int, planSet []int, idShapes ...int) nd.Body {
 	return func(c *nd.Ctx) nd.Result {
+		idShape := 0
+		if len(idShapes) > 0 {
+			if nreq != 1 {
+				panic("c06: generated ids are explored with one requester")
+			}
+			idShape = idShapes[c.Choose(len(idShapes), "id-shape")]
+		}
+		ids := make([]string, nreq)
+		for i := range ids {
+			ids[i] = fmt.Sprintf("r%d", i+1)
+		}
 		planOf := make([]int, nreq)
 		consume := make([]int, nreq)
 		for i := range planOf {
@@ -91,6 +105,10 @@ func correlatedBody(kind string, nreq int, planSet []int) nd.Body {
 		var sent []seenStanza // reply instances the peer sent (n = instance)
 		var setupErr error
 		var env *vsess.Env
+		var misrouted []string
+		var answered map[string]bool
+		ctxs := make([]context.Context, nreq)
+		cancels := make([]context.CancelFunc, nreq)
 		out := vs.Run(c, vs.Options{Horizon: 20000}, func() {
 			env, setupErr = vsess.New(ns, 0)
 			if setupErr != nil {
@@ -101,7 +119,7 @@ func correlatedBody(kind string, nreq int, planSet []int) nd.Body {
 			// still up to the scheduler), which keeps the interleaving space to
 			// the threads that matter: requesters, canceller, serve loop and the
 			// library's own per-send deadline goroutines.
-			answered := map[string]bool{}
+			answered = map[string]bool{}
 			var deferred []string
 			inst := 0
 			var seenOut strings.Builder
@@ -123,12 +141,16 @@ func correlatedBody(kind string, nreq int, planSet []int) nd.Body {
 				seenOut.Write(p)
 				for _, el := range vsess.TopLevel(ns, seenOut.String()) {
 					id := el.Attr("id")
-					if el.Start.Name.Local != kind || !strings.HasPrefix(id, "r") || answered[id] {
+					if idShape != 0 && el.Start.Name.Local == kind && id != "" && !answered[id] && len(answered) == 0 {
+						ids[0] = id // the id the library chose for the only request
+					} else if el.Start.Name.Local != kind || !strings.HasPrefix(id, "r") || answered[id] {
 						continue
 					}
 					answered[id] = true
-					var idx int
-					fmt.Sscanf(id, "r%d", &idx)
+					idx := 1
+					if idShape == 0 {
+						fmt.Sscanf(id, "r%d", &idx)
+					}
 					switch plans[planOf[idx-1]] {
 					case "reply-now":
 						send(rep(id, "result"))
@@ -167,24 +189,56 @@ func correlatedBody(kind string, nreq int, planSet []int) nd.Body {
 				}
 				st.n, _ = readMarker(t, 2)
 				handled = append(handled, st)
+				// a reply for a caller that is still waiting with a live context
+				// belongs to that caller, not to the handler
+				if st.name == kind && (st.typ == "error" || (kind == "iq" && st.typ == "result")) {
+					for i := range outs {
+						if ids[i] == st.id && answered[st.id] && !outs[i].sendDone && ctxs[i] != nil && ctxs[i].Err() == nil {
+							misrouted = append(misrouted, fmt.Sprintf("%+v", st))
+						}
+					}
+				}
 				return nil
 			}))
-			ctxs := make([]context.Context, nreq)
-			cancels := make([]context.CancelFunc, nreq)
 			request := func(i int) {
 				id := fmt.Sprintf("r%d", i+1)
 				var resp xmlstream.TokenReadCloser
 				var err error
 				payload := xmlstream.Wrap(nil, xml.StartElement{Name: xml.Name{Space: "urn:q", Local: "q"}})
-				switch kind {
-				case "iq":
-					resp, err = env.S.SendIQ(ctxs[i], stanza.IQ{ID: id, Type: stanza.GetIQ}.Wrap(payload))
-				case "message":
-					resp, err = env.S.SendMessage(ctxs[i], stanza.Message{ID: id, Type: stanza.ChatMessage}.Wrap(payload))
-				case "presence":
-					resp, err = env.S.SendPresence(ctxs[i], stanza.Presence{ID: id}.Wrap(payload))
+				if idShape != 0 {
+					// the start element is spelled out: the id attribute is empty or absent
+					st := xml.StartElement{Name: xml.Name{Local: kind}}
+					switch kind {
+					case "iq":
+						st.Attr = append(st.Attr, xml.Attr{Name: xml.Name{Local: "type"}, Value: "get"})
+					case "message":
+						st.Attr = append(st.Attr, xml.Attr{Name: xml.Name{Local: "type"}, Value: "chat"})
+					}
+					if idShape == 1 {
+						st.Attr = append(st.Attr, xml.Attr{Name: xml.Name{Local: "id"}, Value: ""})
+					}
+					payload = xmlstream.Wrap(payload, st)
+				}
+				switch {
+				case idShape != 0 && kind == "iq":
+					resp, err = env.S.SendIQ(ctxs[i], payload)
+				case idShape != 0 && kind == "message":
+					resp, err = env.S.SendMessage(ctxs[i], payload)
+				case idShape != 0 && kind == "presence":
+					resp, err = env.S.SendPresence(ctxs[i], payload)
+				}
+				if idShape == 0 {
+					switch kind {
+					case "iq":
+						resp, err = env.S.SendIQ(ctxs[i], stanza.IQ{ID: id, Type: stanza.GetIQ}.Wrap(payload))
+					case "message":
+						resp, err = env.S.SendMessage(ctxs[i], stanza.Message{ID: id, Type: stanza.ChatMessage}.Wrap(payload))
+					case "presence":
+						resp, err = env.S.SendPresence(ctxs[i], stanza.Presence{ID: id}.Wrap(payload))
+					}
 				}
 				o := &outs[i]
+				o.sendDone = true
 				o.err = err
 				o.cancelled = ctxs[i].Err() != nil
 				if err == nil && resp != nil {
@@ -251,6 +305,9 @@ func correlatedBody(kind string, nreq int, planSet []int) nd.Body {
 			planNames = append(planNames, fmt.Sprintf("%s/consume=%d", plans[planOf[i]], consume[i]))
 		}
 		desc := fmt.Sprintf("%s requests=%v", kind, planNames)
+		if idShape != 0 {
+			desc += fmt.Sprintf(" id-shape=%s", []string{"given", "empty-attribute", "absent"}[idShape])
+		}
 		c.Note("%s outcome=%s", desc, out.Kind)
 		for _, t := range out.Trace {
 			c.Note("  %s", t)
@@ -271,11 +328,14 @@ func correlatedBody(kind string, nreq int, planSet []int) nd.Body {
 		case "horizon":
 			return fail("does-not-terminate", "blocked: %v", out.Blocked)
 		}
+		if len(misrouted) > 0 {
+			return fail("reply-given-to-handler-while-caller-waits", "the handler was given %v although the request with that id was still waiting and its context was live", misrouted)
+		}
 		// per-call outcome
 		consumed := map[string]int{}
 		nontrivial := false
 		for i, o := range outs {
-			id := fmt.Sprintf("r%d", i+1)
+			id := ids[i]
 			switch {
 			case o.err != nil:
 				if !o.cancelled {
@@ -316,7 +376,7 @@ func correlatedBody(kind string, nreq int, planSet []int) nd.Body {
 			// a caller that did not read the marker still consumed its reply: find by id
 			if !byCaller {
 				for i, o := range outs {
-					if o.err == nil && fmt.Sprintf("r%d", i+1) == st.id && o.got.n == "" && st.name == kind && (st.typ == "result" || st.typ == "error") {
+					if o.err == nil && ids[i] == st.id && o.got.n == "" && st.name == kind && (st.typ == "result" || st.typ == "error") {
 						// it consumed one reply instance with that id without reading the marker:
 						// attribute the first unaccounted one to it
 						byCaller = true
@@ -337,7 +397,7 @@ func correlatedBody(kind string, nreq int, planSet []int) nd.Body {
 					// the serve loop may drop a reply when it finds the requester's
 					// context cancelled at hand-off time, whether or not the requester
 					// later obtains another (duplicate) reply
-					if fmt.Sprintf("r%d", i+1) == st.id && o.cancelled && st.name == kind && (st.typ == "result" || st.typ == "error") {
+					if ids[i] == st.id && o.cancelled && st.name == kind && (st.typ == "result" || st.typ == "error") {
 						tolerated = true
 					}
 				}
@@ -362,9 +422,9 @@ func init() {
 	drv.Register(&drv.Prop{
 		ID:    "C06",
 		Level: "model_checking",
-		Rule: "real Session on an in-memory net.Conn under the controlled scheduler: serve loop + N concurrent requesters (SendIQ / SendMessage / SendPresence, distinct ids, each reading none/one/all tokens of its response and closing it) + a canceller thread cancelling each request's context + a scripted peer whose per-request plan is one of {reply now, reply late (after the requester is gone), duplicate, same id but wrong stanza kind first, unknown id first, never, error reply, an incoming request re-using the id first}, followed by a sentinel stanza and the closing tag; every interleaving of all threads up to the preemption bound, with select ties enumerated. " +
+		Rule: "real Session on an in-memory net.Conn under the controlled scheduler: serve loop + N concurrent requesters (SendIQ / SendMessage / SendPresence, distinct ids given by the caller or - single requester - an empty or absent id attribute completed by the library, each reading none/one/all tokens of its response and closing it) + a canceller thread cancelling each request's context + a scripted peer whose per-request plan is one of {reply now, reply late (after the requester is gone), duplicate, same id but wrong stanza kind first, unknown id first, never, error reply, an incoming request re-using the id first}, followed by a sentinel stanza and the closing tag; every interleaving of all threads up to the preemption bound, with select ties enumerated. " +
 			"Oracle: each call returns its own reply (kind, id, reply type) xor its context's error after cancellation; a reply instance reaches at most one caller and never caller and handler both; every stanza the peer sent reaches a caller or the handler (except a reply whose requester was cancelled); the sentinel reaches the handler and Serve returns nil; no panic, no deadlock. Non-trivial = executions in which a cancellation or a tolerated drop occurred.",
-		Assumptions: []string{"sequentially consistent interleavings at synchronisation operations and connection I/O; unsynchronised accesses are the business of the separate free-running -race pass", "a reply looked up by the serve loop before a concurrent cancellation may be dropped or handled"},
+		Assumptions: []string{"sequentially consistent interleavings at synchronisation operations and connection I/O; unsynchronised accesses are outside the claim (no race-detector pass exists)", "a reply looked up by the serve loop before a concurrent cancellation may be dropped or handled"},
 		Parts: func(tier string) []drv.Part {
 			pre, b := 1, 3*time.Minute
 			if tier == "thorough" {
@@ -378,6 +438,9 @@ func init() {
 			}
 			return []drv.Part{
 				{Name: "iq-1", Desc: "one IQ requester", Body: correlatedBody("iq", 1, all), MaxDev: pre + 1, ShardLevels: 3, Budget: b, Env: env},
+				{Name: "ids-iq", Desc: "one IQ requester whose request carries an empty or no id attribute (the library chooses the id)", Body: correlatedBody("iq", 1, all, 1, 2), MaxDev: pre, ShardLevels: 3, Budget: b, Env: env},
+				{Name: "ids-message", Desc: "one tracked message with an empty or no id attribute", Body: correlatedBody("message", 1, all, 1, 2), MaxDev: pre, ShardLevels: 3, Budget: b, Env: env},
+				{Name: "ids-presence", Desc: "one tracked presence with an empty or no id attribute", Body: correlatedBody("presence", 1, all, 1, 2), MaxDev: pre, ShardLevels: 3, Budget: b, Env: env},
 				{Name: "iq-2", Desc: "two IQ requesters", Body: correlatedBody("iq", 2, two), MaxDev: pre - 1, ShardLevels: 3, Budget: b, Env: env},
 				{Name: "message-1", Desc: "one tracked message", Body: correlatedBody("message", 1, all), MaxDev: pre + 1, ShardLevels: 3, Budget: b, Env: env},
 				{Name: "presence-1", Desc: "one tracked presence", Body: correlatedBody("presence", 1, all), MaxDev: pre + 1, ShardLevels: 3, Budget: b, Env: env},
